@@ -8,7 +8,7 @@ EXPLANATION = (
     "after every step - and in a clone taken at the end - each present file is listed exactly once, nothing absent is listed and the root entry carries the document's media type. "
 )
 OUTSIDE = ("the zip layer: 'mimetype' first and stored uncompressed, duplicate zip entry names, templates, clone, merge_styles_from (zipfile/filesystem I/O, not encodable - checked concretely in "
-           "the replay only); make_file_entry's XML fragment parsing by real lxml (attribute escaping); histories longer than 3 steps (4 in the thorough tier); more than two distinct file names")
+           "the replay only); histories longer than 3 steps (4 in the thorough tier); more than two distinct file names")
 ASSUMPTIONS = ["two concrete file names, the solver chooses which one each step addresses (so equal and different names are both explored)"]
 TRUSTED = _T
 _ENC = ["src/odfdo/manifest.py:Manifest.add_full_path,del_full_path,get_media_type,set_media_type,get_paths,_file_entry,make_file_entry",
@@ -26,3 +26,6 @@ OBLIGATIONS += [
         bounds=f"4 steps: operation kinds {_a} (on file 0) then {_b}, then two symbolic operations (5 kinds); files of steps 2-4 symbolic (2 names)",
         encodes=_ENC, stubs=_STUB) for _a in range(5) for _b in range(5)
 ]
+OBLIGATIONS.append(Obl(name="file_entry_attrs", module="h_xpath", func="file_entry_attrs", shadow=True, timeout=300, replay="r_h_xpath:file_entry_attrs", weight=30,
+                       bounds="Manifest.make_file_entry(path, media type): path of 1..2 and media type of <= 1 characters, any of U+0020..U+D7FF (&, <, quotes included): the entry carries exactly what it was given",
+                       encodes=["src/odfdo/manifest.py:Manifest.make_file_entry"], stubs=_STUB[:1]))
